@@ -12,6 +12,9 @@ open GJS
 /-- the Go field name of a property -/
 def fname (name : String) : String := identifierizeStr [] name
 
+/-- the schema of a property (the empty schema if there is none) -/
+def propOf (t : Schema) (name : String) : Schema := (alookup name t.node.props).getD default
+
 def flatPropB (p : Schema) : Bool :=
   (p.node.types == ["string"] || p.node.types == ["number"] || p.node.types == ["integer"] || p.node.types == ["boolean"]) &&
   p.node.ref == "" && p.node.enum.isNone && p.node.ext.isNone && p.node.anyOf.isEmpty && p.node.allOf.isEmpty &&
@@ -51,3 +54,38 @@ def flatFullB (t : Schema) : Bool :=
   t.node.required.all (fun k => (akeys t.node.props).contains k) &&
   t.node.props.all (fun p => kwOKB p.2) && decide (t.node.props.length ≤ 31) && topFree t
 end GJS.Props.Flat
+
+namespace GJS.Props.Tree
+open GJS GJS.Props.Flat
+
+def isObj (p : Schema) : Bool := p.node.types == ["object"]
+
+/-- the type names generated for a tree of objects (depth first, members before their parent) -/
+def scopes : Nat → String → Schema → List String
+  | 0, _, _ => []
+  | d + 1, scope, t =>
+    (sortedKeys t.node.props).flatMap (fun n =>
+      if isObj (propOf t n) then scopes d (scope ++ fname n) (propOf t n) else []) ++ [scope]
+
+def objShapeB (t : Schema) : Bool :=
+  t.node.types == ["object"] && t.node.ref == "" && t.node.enum.isNone && t.node.ext.isNone && t.node.anyOf.isEmpty &&
+  t.node.allOf.isEmpty && t.node.addl.isNone && t.node.anyOfCount == 0 && !t.node.subElem && !t.node.props.isEmpty &&
+  t.node.default.isNone && decide (t.node.props.length ≤ 31) && decide (((sortedKeys t.node.props).map fname).Nodup)
+
+def nodeFullB (t : Schema) : Bool :=
+  !t.node.hasNot && t.node.multipleOf.isNone && t.node.format == "" && decide ((akeys t.node.props).Nodup) &&
+  t.node.required.all (fun k => (akeys t.node.props).contains k) && topFree t &&
+  t.node.props.all (fun p => isObj p.2 || kwOKB p.2)
+
+def memberNameB (t : Schema) (n : String) : Bool :=
+  (alookup n t.node.props).isSome && tagNameOK n && isAsciiStr n && fname n != "AdditionalProperties"
+
+/-- trees of objects with scalar leaves, at most `d` levels: the fragment of `tree_end_to_end` -/
+def treeFullB : Nat → Schema → Bool
+  | 0, _ => false
+  | d + 1, t => objShapeB t && nodeFullB t &&
+      (sortedKeys t.node.props).all (fun n => memberNameB t n &&
+        (flatPropB (propOf t n) || (isObj (propOf t n) && treeFullB d (propOf t n))))
+
+end GJS.Props.Tree
+
